@@ -162,7 +162,7 @@ def decide(pid, tier, seed):
                 rejected = r.status == 'fail'
                 vacuity.append({'canary': '%s/%s' % (u, kind[7:]), 'rejected': rejected,
                                 'by': [f['obligation'] for f in r.failures][:3]})
-                if not rejected and main.status == 'ok' and not lenient and r.status != 'undecided':
+                if not rejected and main.status == 'ok' and not lenient:
                     undecided.append('%s canary %s not rejected (%s %s)' % (u, kind[7:], r.status, r.reason[:200]))
 
     # Kani harness sets
